@@ -97,7 +97,7 @@ func SortStableFunc[T comparable](cmp func(a, b T) int) func(ro.Observable[T]) r
 				return nil
 			}
 
-			sort.Slice(values, func(i, j int) bool {
+			sort.SliceStable(values, func(i, j int) bool {
 				return cmp(values[i], values[j]) < 0
 			})
 
